@@ -2,6 +2,7 @@
    Props/C06.lean; separate module so that a tree lacking one of the tests breaks exactly these obligations. -/
 import JanetModel.Props.C06
 import JanetModel.Ev.Wakeup
+import JanetModel.Ev.Kept
 namespace JanetModel.Props.C06
 open JanetModel.Ev
 
@@ -115,6 +116,162 @@ theorem suspends_registered_exactly (w : World) (f : Nat) (hi : WInv w) (hcur : 
   ⟨fun _ _ w' h => Ev.give_suspends_exactly current_good hi hcur w' h,
    fun _ w' h => Ev.take_suspends_exactly current_good hi hcur w' h,
    fun _ w' hnd h => Ev.select_suspends_exactly current_good hi hcur hnd w' h⟩
+
+/-! ## the registrations of a suspended fiber are KEPT until it is scheduled (ghost of the pending operation)
+
+`runG` runs the unchanged model (`runG_is_run`) and records beside it, for every fiber, the last action in which it
+suspended and the sched_id it had when that action began (`Ev/Ghost.lean`; nothing else ever writes the ghost). -/
+
+/-- the ghost run IS the run of the model: its first component is `run` on the same actions -/
+theorem runG_is_run (limits : Nat → Nat) (as : List Action) (g : Ops) :
+    (runG currentCfg (World.start limits) g as).1 = run currentCfg (World.start limits) as :=
+  Ev.runG_fst currentCfg as _ g
+
+/-- **registration_kept**: after EVERY action sequence from the start state (no select naming a channel twice), every
+    suspended fiber `f` has a recorded pending operation `op` (the action it suspended in, with the sched_id it had then), and
+    * as long as `f` has not been scheduled since (`op.sched` is still `f`'s sched_id): `f` is registered as a pending
+      READER with its current sched_id on exactly the channels of the take / take-clauses of `op`, as a pending WRITER on
+      exactly the channels of its give / give-clauses, has a live sleep timer exactly when `op` is a sleep, and has no
+      task in the run queue - nothing was lost, nothing was added, on any channel;
+    * once it has been scheduled (`op.sched <` its sched_id) exactly one live wake-up task for it is in the run queue.
+    This strengthens `suspends_registered_exactly` (exact registration at the moment of suspension, per queue now) to an
+    invariant over all later transitions of all other fibers and loop phases, and `no_lost_wakeup` (SOME live source)
+    to the exact set. -/
+theorem registration_kept (limits : Nat → Nat) (as : List Action) (hns : ∀ a ∈ as, a.noSelfMatch) (f : Nat) :
+    let r := runG currentCfg (World.start limits) (fun _ => none) as
+    (r.1.fibers f).status = .pending →
+    ∃ op, r.2 f = some op ∧ op.sched ≤ (r.1.fibers f).sched ∧
+      (op.sched = (r.1.fibers f).sched →
+        (∀ c, regR r.1 f op.sched c ↔ c ∈ op.act.readChans) ∧ (∀ c, regW r.1 f op.sched c ↔ c ∈ op.act.writeChans) ∧
+        (liveTimer r.1.fibers r.1.timers f ↔ op.act.isSleep = true) ∧ Ev.LT r.1.fibers r.1.runq f = 0) ∧
+      (op.sched < (r.1.fibers f).sched → Ev.LT r.1.fibers r.1.runq f = 1) := by
+  intro r hp
+  obtain ⟨op, hop, hk⟩ :=
+    (Ev.runG_K current_good as _ _ hns (Ev.start_W limits) (Ev.start_K limits _)).2 f hp
+  exact ⟨op, hop, hk.le, hk.kept, hk.woken⟩
+
+/-- a pending operation of a suspended fiber "could be matched" in state `w`: one of its take channels holds an item, is
+    closed or has a suspended, not yet scheduled giver; or one of its give channels is below capacity, is closed or has a
+    suspended, not yet scheduled taker -/
+def Matchable (w : World) (g : Ops) (f : Nat) (op : POp) : Prop :=
+  (∃ c ∈ op.act.readChans, (w.chans c).items ≠ [] ∨ (w.chans c).closed = true ∨
+      ∃ f2 op2, (w.fibers f2).status = .pending ∧ g f2 = some op2 ∧ op2.sched = (w.fibers f2).sched ∧
+        c ∈ op2.act.writeChans) ∨
+  (∃ c ∈ op.act.writeChans, (w.chans c).items.length ≤ (w.chans c).limit ∨ (w.chans c).closed = true ∨
+      ∃ f2 op2, (w.fibers f2).status = .pending ∧ g f2 = some op2 ∧ op2.sched = (w.fibers f2).sched ∧
+        c ∈ op2.act.readChans)
+
+/-- **no_suspended_matchable** (last clause of the property, first half, at full strength): in EVERY reachable state -
+    not only when the loop is idle - a suspended fiber that has not been scheduled since it suspended has a pending
+    operation NONE of whose clauses could be matched: every channel it takes from is open, empty and has no suspended
+    unscheduled giver; every channel it gives to is open, above capacity and has no suspended unscheduled taker.
+    Contrapositive: as soon as its operation is matched or could be matched by a waiting counterpart, the fiber has
+    been scheduled (its sched_id is bumped and, by `registration_kept`, its wake-up task is in the run queue). -/
+theorem no_suspended_matchable (limits : Nat → Nat) (as : List Action) (hns : ∀ a ∈ as, a.noSelfMatch) (f : Nat) (op : POp) :
+    let r := runG currentCfg (World.start limits) (fun _ => none) as
+    (r.1.fibers f).status = .pending → r.2 f = some op → op.sched = (r.1.fibers f).sched →
+    ¬ Matchable r.1 r.2 f op := by
+  intro r hp hop hs
+  have hK := (Ev.runG_K current_good as _ _ hns (Ev.start_W limits) (Ev.start_K limits (fun _ => none))).2
+  have hC : ∀ c, ChanOK r.1.fibers (r.1.chans c) := by
+    intro c
+    have := chan_invariant limits as c
+    rw [← runG_is_run limits as (fun _ => none)] at this
+    exact this
+  -- facts about a suspended, unscheduled fiber
+  have facts : ∀ f1 op1, (r.1.fibers f1).status = .pending → r.2 f1 = some op1 → op1.sched = (r.1.fibers f1).sched →
+      (∀ c ∈ op1.act.readChans, hasLiveReader r.1.fibers (r.1.chans c).readPending = true) ∧
+      (∀ c ∈ op1.act.writeChans, 0 < liveCount r.1.fibers (r.1.chans c).writePending) := by
+    intro f1 op1 hp1 hop1 hs1
+    obtain ⟨op', hop', hk⟩ := hK f1 hp1
+    rw [hop1] at hop'; injection hop' with hop'; subst hop'
+    obtain ⟨kR, kW, _, _⟩ := hk.kept hs1
+    constructor
+    · intro c hc
+      obtain ⟨p, hpin, h1, h2⟩ := (kR c).mpr hc
+      unfold hasLiveReader; rw [List.any_eq_true]
+      exact ⟨p, hpin, (live_iff _ p).mpr (by rw [h1, h2, hs1])⟩
+    · intro c hc
+      obtain ⟨p, hpin, h1, h2⟩ := (kW c).mpr hc
+      unfold liveCount
+      exact List.countP_pos_iff.mpr ⟨p, hpin, (live_iff _ p).mpr (by rw [h1, h2, hs1])⟩
+  obtain ⟨fR, fW⟩ := facts f op hp hop hs
+  rintro (⟨c, hc, hm⟩ | ⟨c, hc, hm⟩)
+  · have hr := fR c hc
+    have hit := (hC c).reader hr
+    rcases hm with h | h | ⟨f2, op2, hp2, hop2, hs2, hc2⟩
+    · exact h hit
+    · have := ((hC c).closed h).1
+      unfold hasLiveReader at hr; rw [this] at hr; simp at hr
+    · have hpos := (facts f2 op2 hp2 hop2 hs2).2 c hc2
+      rcases (hC c).writer with h0 | hw
+      · omega
+      · rw [hit] at hw; simp at hw; omega
+  · have hpos := fW c hc
+    have hlim : (r.1.chans c).limit < (r.1.chans c).items.length := by
+      rcases (hC c).writer with h0 | hw <;> omega
+    rcases hm with h | h | ⟨f2, op2, hp2, hop2, hs2, hc2⟩
+    · omega
+    · have := ((hC c).closed h).2
+      unfold liveCount at hpos; rw [this] at hpos; simp at hpos
+    · have hr := (facts f2 op2 hp2 hop2 hs2).1 c hc2
+      have := (hC c).reader hr
+      rw [this] at hlim; simp at hlim
+
+/-- **terminates_when_matchable_full** (last clause, second half): if after some action sequence the loop has nothing to
+    run (no task, no timer), then every suspended fiber is still in its recorded pending operation (never scheduled
+    since), that operation is a channel operation, and NO clause of it can be matched - not by a queued item, not by
+    spare capacity, not by a closed channel, not by the pending operation of any other suspended fiber.  So the loop
+    only goes idle in a genuine deadlock of the recorded operations: whenever the operations can all be matched (indeed
+    whenever any single one can) the program runs on.
+    Stronger than `terminates_when_matchable`, which gave only SOME registration of the fiber on SOME unmatchable
+    channel: a fiber suspended in a select whose other clause could be matched was not excluded there. -/
+theorem terminates_when_matchable_full (limits : Nat → Nat) (as : List Action) (hns : ∀ a ∈ as, a.noSelfMatch) (f : Nat) :
+    let r := runG currentCfg (World.start limits) (fun _ => none) as
+    r.1.runq = [] → r.1.timers = [] → (r.1.fibers f).status = .pending →
+    ∃ op, r.2 f = some op ∧ op.sched = (r.1.fibers f).sched ∧ op.act.isSleep = false ∧
+      (op.act.readChans ≠ [] ∨ op.act.writeChans ≠ []) ∧ ¬ Matchable r.1 r.2 f op := by
+  have hk := registration_kept limits as hns f
+  have hnm := fun op => no_suspended_matchable limits as hns f op
+  have hW := no_lost_wakeup limits as hns
+  rw [← runG_is_run limits as (fun _ => none)] at hW
+  dsimp only at hk hnm ⊢
+  generalize runG currentCfg (World.start limits) (fun _ => none) as = r at *
+  intro hrq htm hp
+  obtain ⟨op, hop, hle, hkept, hwoken⟩ := hk hp
+  have hs : op.sched = (r.1.fibers f).sched := by
+    rcases Nat.lt_or_ge op.sched (r.1.fibers f).sched with h | h
+    · have := hwoken h; simp [Ev.LT, hrq] at this
+    · exact Nat.le_antisymm hle h
+  obtain ⟨kR, kW, kT, _⟩ := hkept hs
+  have hns' : op.act.isSleep = false := by
+    cases hsl : op.act.isSleep
+    · rfl
+    · obtain ⟨t, ht, _⟩ := kT.mpr hsl; rw [htm] at ht; simp at ht
+  refine ⟨op, hop, hs, hns', ?_, hnm op hp hop hs⟩
+  -- it is registered somewhere (no_lost_wakeup): so its operation has a channel
+  rcases hW.1.d1 f hp with h | h | ⟨c, h⟩
+  · simp [Ev.LT, hrq] at h
+  · obtain ⟨t, ht, _⟩ := h; rw [htm] at ht; simp at ht
+  · rw [liveIn_iff_reg, ← hs] at h
+    rcases h with h | h
+    · left; intro e; have := (kR c).mp h; rw [e] at this; simp at this
+    · right; intro e; have := (kW c).mp h; rw [e] at this; simp at this
+
+/-- non-vacuity / the ghost at work: A `(ev/select [c0 1001] c1)` suspends registered as writer on c0 and reader on c1 and
+    nowhere else; after B `(ev/give c1 2001)` A has been scheduled (sched_id bumped, one live task); the recorded
+    operation is the select with the sched_id A had when it began. -/
+example :
+    let r := runG Cfg.good (World.start fun _ => 0) (fun _ => none)
+      [.timers, .runTask, .go 1, .go 2, .finish false, .runTask, .select [.give 0 1001, .take 1]]
+    (r.1.fibers 1).status = .pending ∧ r.2 1 = some ⟨.select [.give 0 1001, .take 1], 1⟩ ∧ (r.1.fibers 1).sched = 1 ∧
+    regWb r.1 1 1 0 = true ∧ regRb r.1 1 1 1 = true ∧ regRb r.1 1 1 0 = false ∧ regWb r.1 1 1 1 = false := by decide
+
+example :
+    let r := runG Cfg.good (World.start fun _ => 0) (fun _ => none)
+      [.timers, .runTask, .go 1, .go 2, .finish false, .runTask, .select [.give 0 1001, .take 1], .runTask, .give 1 2001]
+    (r.1.fibers 1).status = .pending ∧ r.2 1 = some ⟨.select [.give 0 1001, .take 1], 1⟩ ∧ (r.1.fibers 1).sched = 2 ∧
+    r.1.runq.map (·.fiber) = [1] := by decide
 
 /-- `noSelfMatch` is needed: `(ev/select c0 [c0 5] c0)` alone in a fiber is matched with itself in the registration
     loop; when the fiber runs again - its select has returned `[:take c0 5]` - it still has a current registration in
